@@ -7,7 +7,8 @@
 //!       T\t0\t<ast>\t<optimized>\t<checked-in parser, read>         F\t0\t<ast>\t<optimized>\t<fresh parser, read>
 //!   c14 diff REPO COUNT SEED  differential runs: checked-in parser vs pest_vm on parse_and_optimize(grammar.pest)
 //!       G\tmeta\t0\t<optimized sexp>\t-
-//!       D\t<rule>\t<text hex>\t<checked-in obs>\t<vm obs>
+//!       D\t<rule>\t<text hex>\t<checked-in obs (through pest_meta::parser::parse)>\t<vm obs>
+//!       E\t<entry>\t<rule>\t<text hex>\t<obs of that entry>\t<obs it must equal>\t<direct|vm>   only when they differ (see `observe`)
 //!   c14 freshsrc REPO         source of a program with a #[derive(Parser)] of grammar.pest that appends its own observation to D lines
 //!   c14 freshgen REPO         the same, but the parser is the token stream the in-tree pest_generator::derive_parser returns for grammar.pest
 //!                             (the bootstrap invocation), written out as source: the program depends on the repository's `pest` only
@@ -70,12 +71,74 @@ fn obs_err<R: std::fmt::Debug>(e: pest::error::Error<R>) -> String {
     }
 }
 
+/// One leg: (the observation every leg is compared on: token forest / error position and sets; what the result says about the TEXT it
+/// was computed on: the input of the token tree must be the caller's text itself, the error carries the line and line/column of it).
+fn leg<R: pest::RuleType>(res: Result<pest::iterators::Pairs<'_, R>, pest::error::Error<R>>, t: &str, name: &dyn Fn(R) -> String) -> (String, String) {
+    match res {
+        Ok(p) => {
+            let inp = p.get_input();
+            let x = if inp.as_ptr() == t.as_ptr() && inp.len() == t.len() { "input=the text".to_string() }
+                else { format!("input=ANOTHER text ({} bytes, {}; the text has {} bytes)", inp.len(), if inp == t { "equal" } else { "different" }, t.len()) };
+            (format!("Ok {}", forest(p, name)), x)
+        }
+        Err(e) => { let x = format!("line_col={:?} line={:?}", e.line_col, e.line()); (obs_err(e), x) }
+    }
+}
+
+#[derive(Default)]
+struct Counts { n: u64, nt: u64, diffs: u64, entry: u64, top: u64 }
+
+/// One (rule, text) case on the legs that live in this process.  The checked-in parser is run through the entry its users call,
+/// `pest_meta::parser::parse` (column 4 of the D line; the compiled fresh parsers append their columns downstream), and
+///   * through the generated `PestParser::parse` that entry wraps: any difference (text, spans, error) is an E line;
+///   * for the top rule through `pest_meta::parse_and_optimize`, the entry on top of it: it must end in the parse error pest_vm reports
+///     for the text when there is one, and in no parse error otherwise (validation errors are CustomErrors) - else an E line.
+/// What the results say about the text itself (see `leg`) is appended to both columns when the forests / errors agree but that differs.
+fn observe(vm: &pest_vm::Vm, has_rule: bool, r: pest_meta::parser::Rule, name: &str, t: &str, c: &mut Counts, w: &mut dyn Write) {
+    use pest::Parser;
+    let rn = |x: pest_meta::parser::Rule| format!("{:?}", x);
+    let (mut a, xa) = catch(|| leg(pest_meta::parser::parse(r, t), t, &rn)).unwrap_or_else(|m| (format!("Panic {}", m), String::new()));
+    let (mut b, xb) = if has_rule { catch(|| leg(vm.parse(name, t), t, &|x: &str| x.to_string())).unwrap_or_else(|m| (format!("Panic {}", m), String::new())) } else { ("NoSuchRule".to_string(), String::new()) };
+    let (d, xd) = catch(|| leg(pest_meta::parser::PestParser::parse(r, t), t, &rn)).unwrap_or_else(|m| (format!("Panic {}", m), String::new()));
+    c.n += 1; c.entry += 1;
+    if (a.starts_with("Ok ") && a.len() > 3) || (a.starts_with("Err ") && !a.starts_with("Err 0 ")) { c.nt += 1; }
+    if d != a || xd != xa {
+        writeln!(w, "E\tpest_meta::parser::parse\t{}\t{}\t{} ## {}\t{} ## {}\tdirect", name, hex(t), a, xa, d, xd).unwrap();
+    }
+    if name == "grammar_rules" && has_rule && (b.starts_with("Err ") || (b.starts_with("Ok ") && t.len() <= 4000)) {
+        c.top += 1;
+        let po = catch(|| match pest_meta::parse_and_optimize(t) {
+            Ok(_) => "no parse error".to_string(),
+            Err(es) => if es.len() == 1 && matches!(es[0].variant, pest::error::ErrorVariant::ParsingError { .. }) { obs_err(es.into_iter().next().unwrap()) } else { "no parse error".to_string() },
+        }).unwrap_or_else(|m| if b.starts_with("Ok ") { "no parse error".to_string() } else { format!("Panic {}", m) });
+        let want = if b.starts_with("Err ") { b.clone() } else { "no parse error".to_string() };
+        if po != want { writeln!(w, "E\tpest_meta::parse_and_optimize\t{}\t{}\t{}\t{}\tvm", name, hex(t), po, want).unwrap(); }
+    }
+    if a == b && xa != xb && has_rule { a = format!("{} ## {}", a, xa); b = format!("{} ## {}", b, xb); }
+    if a != b { c.diffs += 1; }
+    writeln!(w, "D\t{}\t{}\t{}\t{}", name, hex(t), a, b).unwrap();
+}
+
+/// Characters and sequences that a text-handling layer between a caller and a parser typically strips, normalises, folds or treats as
+/// blank: byte order marks, every line-break convention, NUL / control characters, the Unicode blanks and separators, zero-width
+/// characters, characters whose normal form / case folding is an ASCII character of the meta-grammar, and one character of every
+/// UTF-8 width.  The meta-grammar has no place for most of them, so every leg must reject (or span) them in the same way.
+const ENTRY_CHARS: [&str; 24] = ["\u{feff}", "\r\n", "\n", "\r", "\0", "\t", " ", "\u{a0}", "\u{85}", "\u{2028}", "\u{2029}", "\u{200b}", "\u{3000}", "\u{c}", "\u{1a}", "\u{7f}",
+    "\u{fffe}", "\u{301}", "\u{ff5b}", "\u{212a}", "\u{e9}", "\u{20ac}", "\u{1f600}", "\u{10ffff}"];
+
 fn mutate(r: &mut Rng, t: &str) -> String {
     let chars: Vec<char> = t.chars().collect();
     if chars.is_empty() { return "{".into(); }
     let meta = ['{', '}', '"', '\'', '~', '|', '*', '+', '?', '(', ')', '[', ']', '=', '_', '@', '$', '!', '&', '^', '#', '/', '\\', '.', ',', ' ', '\n', 'a', '0', '-'];
     let i = r.below(chars.len() as u64) as usize;
     let mut c = chars.clone();
+    if r.chance(1, 5) {
+        // one of the characters above: at the very start, at the very end, or at the position drawn
+        let e: Vec<char> = ENTRY_CHARS[r.below(ENTRY_CHARS.len() as u64) as usize].chars().collect();
+        let at = match r.below(4) { 0 => 0, 1 => c.len(), _ => i };
+        for (k, x) in e.into_iter().enumerate() { c.insert(at + k, x); }
+        return c.into_iter().collect();
+    }
     match r.below(6) {
         0 => { c.remove(i); }
         1 => { c.insert(i, meta[r.below(meta.len() as u64) as usize]); }
@@ -241,6 +304,7 @@ fn main() {
             writeln!(w, "G\tmeta\t0\t{}\t-", sexp_grammar(&from_orules(&opt))).unwrap();
             let names: Vec<String> = opt.iter().map(|r| r.name.clone()).collect();
             let rmap: std::collections::HashMap<String, pest_meta::optimizer::OptimizedExpr> = opt.iter().map(|r| (r.name.clone(), r.expr.clone())).collect();
+            let opt_copy = opt.clone();
             let vm = pest_vm::Vm::new(opt);
             let all = pest_meta::parser::Rule::all_rules();
             let top = pest_meta::parser::Rule::grammar_rules;
@@ -278,21 +342,45 @@ fn main() {
                 "\"\\n\"", "\"\\x41\"", "\"\\u{1F600}\"", "'\\''", "a ~ b | c", "!a ~ &b", "(a | b)*", "a+?", "_", "a = _{ \"x\" }", "a = @{ b }", "a = ${ b }", "a = !{ b }", "PUSH_LITERAL(\"a\")", "-12", "007", "|a", "a = { | b }"];
             for f in frags.iter() { if fixed { cases.push((f.to_string(), all.to_vec())); } let m = mutate(&mut rng, f); cases.push((m, all.to_vec())); }
             for _ in 0..count { let n = rng.range(3, 10); let t: String = (0..n).map(|_| alpha[rng.below(alpha.len() as u64) as usize]).collect(); let rs = main_rules(&mut rng); cases.push((t, rs)); }
+            // the characters a layer between the caller and the generated parser typically strips or normalises (ENTRY_CHARS), through the
+            // public entry like every other text: each of them alone, in front of, behind and inside a shortest spelling of EVERY rule, fed to
+            // that rule; in front of / behind / inside the shipped grammars and the generated ones, fed to the top rule
+            let before_entry = cases.len();
+            let go = texts::G::new(&from_orules(&opt_copy));
+            if fixed {
+                for r in all.iter() {
+                    let name = format!("{:?}", r);
+                    let base = go.short.get(&name).cloned().unwrap_or_default();
+                    let bounds: Vec<usize> = base.char_indices().map(|(i, _)| i).filter(|i| *i > 0).collect();
+                    for e in ENTRY_CHARS.iter() {
+                        let mut ts = vec![e.to_string(), format!("{}{}", e, base), format!("{}{}", base, e), format!("{} {}", e, base), format!(" {}{}", e, base), format!("{}{}{}", e, e, base)];
+                        if !bounds.is_empty() { let k = bounds[rng.below(bounds.len() as u64) as usize]; ts.push(format!("{}{}{}", &base[..k], e, &base[k..])); }
+                        for t in ts { cases.push((t, vec![*r])); }
+                    }
+                }
+            }
+            for (i, t) in valid.iter().enumerate() {
+                let shipped = i < nfiles;
+                if shipped && !fixed { continue; }
+                let bounds: Vec<usize> = t.char_indices().map(|(i, _)| i).collect();
+                for (k, e) in ENTRY_CHARS.iter().enumerate() {
+                    if shipped || rng.chance(1, 6) { cases.push((format!("{}{}", e, t), vec![top])); }
+                    if (shipped && (k + i) % 6 == 0) || rng.chance(1, 12) { cases.push((format!("{}{}", t, e), vec![top])); }
+                    if !bounds.is_empty() && ((shipped && (k + i) % 6 == 3) || rng.chance(1, 12)) { let p = bounds[rng.below(bounds.len() as u64) as usize]; cases.push((format!("{}{}{}", &t[..p], e, &t[p..]), vec![top])); }
+                }
+            }
+            let n_entry_texts = cases.len() - before_entry;
             if arg(5) == "one" { cases = vec![(pvharness::prog::unhex(&arg(7)), all.iter().cloned().filter(|r| format!("{:?}", r) == arg(6)).collect())]; }
-            let (mut n, mut nt, mut diffs) = (0u64, 0u64, 0u64);
+            let mut c = Counts::default();
             for (t, rs) in &cases {
                 for r in rs {
                     let name = format!("{:?}", r);
                     if !names.contains(&name) && name != "EOI" { continue; }
-                    let a = catch(|| match pest_meta::parser::parse(*r, t) { Ok(p) => format!("Ok {}", forest(p, &|x: pest_meta::parser::Rule| format!("{:?}", x))), Err(e) => obs_err(e) }).unwrap_or_else(|m| format!("Panic {}", m));
-                    let b = catch(|| match vm.parse(&name, t) { Ok(p) => format!("Ok {}", forest(p, &|x: &str| x.to_string())), Err(e) => obs_err(e) }).unwrap_or_else(|m| format!("Panic {}", m));
-                    n += 1;
-                    if (a.starts_with("Ok ") && a.len() > 3) || (a.starts_with("Err ") && !a.starts_with("Err 0 ")) { nt += 1; }
-                    if a != b { diffs += 1; }
-                    writeln!(w, "D\t{}\t{}\t{}\t{}", name, hex(t), a, b).unwrap();
+                    observe(&vm, true, *r, &name, t, &mut c, &mut w);
                 }
             }
-            writeln!(w, "#SUMMARY\tevaluations={}\tdistinct_nontrivial={}\tdirect_differences={}\tpest_files={}", n, nt, diffs, nfiles).unwrap();
+            writeln!(w, "#SUMMARY\tevaluations={}\tdistinct_nontrivial={}\tdirect_differences={}\tpest_files={}\tentry_vs_generated={}\tparse_and_optimize_vs_vm={}\tentry_char_texts={}",
+                c.n, c.nt, c.diffs, nfiles, c.entry, c.top, n_entry_texts).unwrap();
         }
         "target" => {
             // targeted failing-input search for the rules named in arg(3) (comma separated; these are the rules a structural stage found to
@@ -303,6 +391,8 @@ fn main() {
             //  (b) the same spellings embedded in a shortest text of EVERY rule that reaches the rule, up to the top rule, fed to that rule;
             //  (c) the grammar's own trivia (spellings of WHITESPACE / COMMENT, singly and in pairs) inserted at every position of the
             //      shortest of these texts; when the rule is itself part of the trivia, its spellings are used as trivia in texts of every rule;
+            //  (e) the characters a layer between the caller and the generated parser typically strips or normalises (ENTRY_CHARS) in front
+            //      of, behind and inside the spellings, for the rule and embedded in its callers;
             //  (d) unless `light`: all strings up to MAXLEN over the literal alphabet of the rule and its callees (both versions), alone and
             //      in fixed contexts for the top rule.
             let targets: Vec<String> = arg(3).split(',').filter(|x| !x.is_empty()).map(|x| x.to_string()).collect();
@@ -324,18 +414,16 @@ fn main() {
             let nor = |_: &str| -> Option<Vec<(char, char)>> { None };
             let src = std::fs::read_to_string(format!("{}/meta/src/grammar.rs", repo.trim_end_matches('/'))).unwrap_or_default();
             let checked = syn::parse_file(&src).ok().and_then(|f| genread::read_parser(&f, &none, &nor).ok());
-            let (n, nt, diffs) = (std::cell::Cell::new(0u64), std::cell::Cell::new(0u64), std::cell::Cell::new(0u64));
+            let n = std::cell::Cell::new(0u64);
+            let counts = std::cell::RefCell::new(Counts::default());
             let mut fed: std::collections::HashSet<(String, String)> = std::collections::HashSet::new();
             let mut stage_counts: Vec<(String, u64)> = vec![];
             let mut feed = |rule: &str, t: &str, w: &mut BufWriter<io::StdoutLock>| {
                 let r = match all.iter().find(|r| format!("{:?}", r) == rule) { Some(r) => *r, None => return };
                 if t.len() > 2000 || !fed.insert((rule.to_string(), t.to_string())) { return; }
-                let a = catch(|| match pest_meta::parser::parse(r, t) { Ok(p) => format!("Ok {}", forest(p, &|x: pest_meta::parser::Rule| format!("{:?}", x))), Err(e) => obs_err(e) }).unwrap_or_else(|m| format!("Panic {}", m));
-                let b = if names.iter().any(|x| x == rule) { catch(|| match vm.parse(rule, t) { Ok(p) => format!("Ok {}", forest(p, &|x: &str| x.to_string())), Err(e) => obs_err(e) }).unwrap_or_else(|m| format!("Panic {}", m)) } else { "NoSuchRule".to_string() };
-                n.set(n.get() + 1);
-                if (a.starts_with("Ok ") && a.len() > 3) || (a.starts_with("Err ") && !a.starts_with("Err 0 ")) { nt.set(nt.get() + 1); }
-                if a != b { diffs.set(diffs.get() + 1); }
-                writeln!(w, "D\t{}\t{}\t{}\t{}", rule, hex(t), a, b).unwrap();
+                let mut c = counts.borrow_mut();
+                observe(&vm, names.iter().any(|x| x == rule), r, rule, t, &mut c, w);
+                n.set(c.n);
             };
             let spell_rule = |name: &str, depth: u32, cap: usize, rng: &mut Rng| -> Vec<String> {
                 let mut v: Vec<String> = vec![];
@@ -404,6 +492,25 @@ fn main() {
                     }
                 }
                 stage_counts.push((format!("{}:trivia at every position", tname), n.get() - mark));
+                // (e) the characters a layer in front of the generated parser typically strips or normalises, around and inside the spellings
+                let mark = n.get();
+                for (i, s) in spellings.iter().take(60).enumerate() {
+                    let bounds: Vec<usize> = s.char_indices().map(|(i, _)| i).filter(|i| *i > 0).collect();
+                    for e in ENTRY_CHARS.iter() {
+                        feed(tname, &format!("{}{}", e, s), &mut w);
+                        feed(tname, &format!("{}{}", s, e), &mut w);
+                        if i < 12 { for k in bounds.iter().take(12) { feed(tname, &format!("{}{}{}", &s[..*k], e, &s[*k..]), &mut w); } }
+                    }
+                }
+                for (a, pre, post, _) in contexts.iter().filter(|(a, _, _, d)| roots.contains(a) || *d == 1) {
+                    for s in spellings.iter().take(4) { for e in ENTRY_CHARS.iter() {
+                        feed(a, &format!("{}{}{}{}", e, pre, s, post), &mut w);
+                        feed(a, &format!("{}{}{}{}", pre, s, post, e), &mut w);
+                        feed(a, &format!("{}{}{}{}", pre, e, s, post), &mut w);
+                        feed(a, &format!("{}{}{}{}", pre, s, e, post), &mut w);
+                    } }
+                }
+                stage_counts.push((format!("{}:{} strippable / normalisable characters around and inside", tname, ENTRY_CHARS.len()), n.get() - mark));
                 if light { continue; }
                 // (d)
                 let mark = n.get();
@@ -429,7 +536,8 @@ fn main() {
                 stage_counts.push((format!("{}:all strings up to length {} over {} characters", tname, maxlen, alpha.len()), n.get() - mark));
             }
             writeln!(w, "STAGES\t{}", stage_counts.iter().map(|(k, v)| format!("{}={}", k, v)).collect::<Vec<_>>().join("; ")).unwrap();
-            writeln!(w, "#SUMMARY\tevaluations={}\tdistinct_nontrivial={}\tdirect_differences={}\tpest_files=0", n.get(), nt.get(), diffs.get()).unwrap();
+            let c = counts.borrow();
+            writeln!(w, "#SUMMARY\tevaluations={}\tdistinct_nontrivial={}\tdirect_differences={}\tpest_files=0\tentry_vs_generated={}\tparse_and_optimize_vs_vm={}", c.n, c.nt, c.diffs, c.entry, c.top).unwrap();
         }
         "freshgen" => {
             let derived = match catch(|| fresh_tokens(&repo)) { Ok(t) => t, Err(m) => { eprintln!("derive_parser panicked: {}", m); std::process::exit(3); } };
